@@ -129,6 +129,7 @@ pub struct Rewriter<'a> {
     pub collect_type: Option<String>,
     pub drop_takes: bool,
     pub drop_fn: String,
+    pub user_call_ret: Option<String>,
     /// crate-local async fns: `f(args).await` is the sequential call `f(args, Tracked(w))`
     pub async_fns: Vec<String>,
     /// R15: method name -> kinds ("poll" | "option") for successive occurrences (pre-order)
@@ -466,8 +467,13 @@ impl<'a> VisitMut for Rewriter<'a> {
                         let args = c.args.iter();
                         self.fired.push(format!("R6-user-call-{}", n));
                         let nm = if c.args.len() == 1 { id("vx_user_call1") } else { id("vx_user_call") };
+                        let tf: TokenStream = match (&self.user_call_ret, c.args.len()) {
+                            (Some(r), 1) => { let t: Type = syn::parse_str(r).unwrap(); quote! { ::<_, _, #t> } }
+                            (Some(r), _) => { let t: Type = syn::parse_str(r).unwrap(); quote! { ::<_, _, _, #t> } }
+                            _ => quote! {},
+                        };
                         let new: Expr = if self.world {
-                            parse_quote! { #nm(&#f, #(#args),*, Tracked(w)) }
+                            parse_quote! { #nm #tf(&#f, #(#args),*, Tracked(w)) }
                         } else {
                             parse_quote! { #nm(&#f, #(#args),*) }
                         };
@@ -554,6 +560,7 @@ pub fn apply_all(block: &mut Block, item: &Value, fired: &mut Vec<String>, name:
         drop_takes: item.get("drop_takes").and_then(|x| x.as_bool()).unwrap_or(false),
         drop_fn: item.get("drop_fn").and_then(|x| x.as_str()).unwrap_or("vx_drop_sender_opt").to_string(),
         async_fns: list("async_fns"),
+        user_call_ret: item.get("user_call_ret").and_then(|x| x.as_str()).map(String::from),
         desugar: item
             .get("desugar")
             .and_then(|x| x.as_object())
